@@ -13,6 +13,7 @@ func init() {
 	vpRegister("vpH_C16_afterfail", vpH_C16_afterfail)
 	vpRegister("vpH_C16_later", vpH_C16_later)
 	vpRegister("vpH_C16_manyfields", vpH_C16_manyfields)
+	vpRegister("vpH_C16_shift", vpH_C16_shift)
 	vpRegister("vpH_K11_statsmerge", vpH_K11_statsmerge)
 	vpRegister("vpH_C17_assoc", vpH_C17_assoc)
 	vpRegister("vpH_C17_prefix", vpH_C17_prefix)
@@ -126,6 +127,41 @@ func vpH_C16_manyfields() {
 		vpStatsCheck("merged (many fields)", vpLoad(mb), exp, true)
 	}
 	vpReach("C16 manyfields end")
+}
+
+// C16 for merges in which field numbers shift: A has [_id body cats], B has
+// [_id abstract] (and the other way round); symbolic frequencies; statistics of
+// every field of the merged segment, with and without a deletion.
+func vpH_C16_shift() {
+	g := vpNewGen(0)
+	g.perTermFreq = true
+	mk := func(id string, names ...string) *vpDoc {
+		d := &vpDoc{fields: []*vpField{{name: "_id", store: true, value: []byte(id), length: 1, terms: []*vpTerm{{term: []byte(id), freq: 1}}}}}
+		for _, n := range names {
+			d.fields = append(d.fields, &vpField{name: n, terms: []*vpTerm{g.term("t", 0, ""), g.term("u", 0, "")}})
+		}
+		return d
+	}
+	a := []*vpDoc{mk("a0", "body", "cats"), mk("a1", "body")}
+	b := []*vpDoc{mk("b0", "abstract")}
+	g.done()
+	vpSetLengths(a)
+	vpSetLengths(b)
+	batches := [][]*vpDoc{a, b}
+	if vpChoice("order", 2) == 1 {
+		batches = [][]*vpDoc{b, a}
+	}
+	segs := []*Segment{vpBuild(batches[0], 1025), vpBuild(batches[1], 1025)}
+	drops := make([]*roaring.Bitmap, 2)
+	dropped := make([][]bool, 2)
+	drops[0], dropped[0] = vpDrops("m", len(batches[0]))
+	drops[1], dropped[1] = vpDrops("m", len(batches[1]))
+	surv := vpSurvivors(batches, dropped)
+	vpAssume(len(surv) > 0)
+	mb, _ := vpMergeBytes(segs, drops, 1025)
+	vpNote("feat:merged-stats")
+	vpStatsCheck("merged (shifted field numbers)", vpLoad(mb), vpBuildExpect(surv, vpFieldNames(a, b)), true)
+	vpReach("C16 shift end")
 }
 
 func vpH_C16_stats() {
@@ -286,7 +322,7 @@ func vpH_C18_match() {
 		// quick tier: lists of three terms over reduced tables (known field,
 		// unknown field, another known field; a general and a single-document term)
 		fieldsTab = []string{"a", "nofield", "_id"}
-		termsTab = []string{"x", "d0"}
+		termsTab = []string{"x", "d0", "d1"}
 	}
 	var list []segment.Term
 	want := map[uint64]bool{}
